@@ -193,7 +193,7 @@ FAULT_BUILDING = """0, CONSUMO, ILU, ELECTRICIDAD, 4, 6
 def fault_bytes(lines):
     out = b""
     for ln in lines:
-        out += b",".join(t.replace("<NA>", "ñ€").encode("utf-8").replace(b"<FF>", b"\xff") for t in ln) + b"\n"
+        out += b",".join(t.replace("<NA>", "ñ€").replace("<CM>", '# ñ>€"ñ&<\\').encode("utf-8").replace(b"<FF>", b"\xff") for t in ln) + b"\n"
     return out
 
 
